@@ -286,6 +286,30 @@ func c16Triples(c *Ctx, n int) []c16Triple {
 			}
 		}
 	}
+	// query texts that differ in white space only where white space MATTERS (a line break that ends a comment against a blank that
+	// does not, blanks inside a literal, a line break inside a block comment): each text has its own answer, in either order
+	{
+		schema := "input: {\n\tname: string\n\tok: bool\n\t_dependencies: []\n}\nstep1: {\n\tresult: string\n\t_dependencies: [\"input\"]\n}\n"
+		pairs := [][2]string{
+			{"$.step1.result // c\n.nope", "$.step1.result // c .nope"},
+			{"$.input.name.Equal(\"a  b\")", "$.input.name.Equal(\"a b\")"},
+			{"$.input.name.Equal(\"a\tb\")", "$.input.name.Equal(\"a b\")"},
+			{"$.input // x\n.name", "$.input // x\t.name"},
+			{"$.input.name.AnyOf(\"x\", \" \")", "$.input.name.AnyOf(\"x\", \"  \")"},
+			{"{AND,$.input.ok // k\n,$.input.nosuch\n}", "{AND,$.input.ok // k ,$.input.nosuch\n}"},
+			{"$.input.name.Left(1)  // t\n.Equal(\"a\")", "$.input.name.Left(1) // t .Equal(\"a\")"},
+		}
+		for rep := 0; rep < 2; rep++ {
+			for _, pr := range pairs {
+				a, b := pr[0], pr[1]
+				if rep == 1 {
+					a, b = b+" ", a+" "
+				}
+				ts = append(ts, c16Triple{a, schema, "", "texts-that-differ-in-white-space", nil}, c16Triple{b, schema, "", "texts-that-differ-in-white-space", nil},
+					c16Triple{a, schema, "step1", "texts-that-differ-in-white-space", nil}, c16Triple{b, schema, "step1", "texts-that-differ-in-white-space", nil})
+			}
+		}
+	}
 	// the same query text validated in several contexts - a schema in which a path argument of a call fails (its filter is applied to an
 	// object), a current step for which a field read inside the argument is blocked, and the good context again: what the cached
 	// operation keeps from one validation must not show in the next, and trees returned earlier stay what they were
